@@ -19,8 +19,8 @@ _NUM = (int, bool, SymInt, SymBool)
 
 
 def _is_state_value(v):
-    if isinstance(v, _NUM):
-        return True
+    if isinstance(v, _NUM) or v is None:
+        return True                      # None: a state attribute that has not been given a number yet ('no previous value')
     if isinstance(v, list) and all(isinstance(e, _NUM) for e in v):
         return True                      # (an empty list counts: capture buffers start empty)
     return False
